@@ -792,6 +792,8 @@ pub fn family(name: &str, n: usize) -> String {
         "branchchain" => { let mut s = String::from("C("); for _ in 0..n.saturating_sub(2) { s.push('C') } s.push_str(")C"); s }
         "macrocycle" => { let mut s = String::from("C1"); for _ in 0..n.saturating_sub(2) { s.push('C') } s.push_str("C1"); s }
         "comb" => { let mut s = String::new(); for _ in 0..n / 2 { s.push_str("C(N)") } s.push('O'); s }
+        "ringtail" => { let mut s = "C".repeat(n.saturating_sub(6)); s.push_str("C=1CCC(C/%12)C=1.C\\%12"); s }
+        "bondchain" => { let mut s = String::from("C"); for i in 1..n { s.push_str(["=C", "-C", "#C", "C"][i % 4]) } s }
         "nested" => { let mut s = String::from("C"); for _ in 1..n { s.push_str("(C") } for _ in 1..n { s.push(')') } s }
         "nested2" => { let mut s = String::new(); for _ in 0..n { s.push_str("C(C)(") } s.push('C'); for _ in 0..n { s.push(')') } s }
         _ => String::new(),
